@@ -14,6 +14,7 @@ type modeObj struct {
 	st   cipher.Stream
 	lp   gcipher.LengthPreservingMode
 	blk  cipher.Block
+	raw  cipher.Block // the (wrapped) block behind an ECB object: its batch interface is exercised too
 	dir  string
 	mode string
 }
@@ -55,6 +56,7 @@ func newModeObj(st Step, env *Env) *modeObj {
 	case "block":
 		o.blk = b
 	case "ecb":
+		o.raw = b
 		if enc {
 			o.bm = gcipher.NewECBEncrypter(b)
 		} else {
@@ -167,6 +169,36 @@ func init() {
 				}
 				if mm != nil {
 					return mm
+				}
+				// the batch interface of the block itself (EncryptBlocks/DecryptBlocks: exactly Concurrency() blocks per call), which the
+				// generic modes are built on: the same blocks, buffers of exactly the batch size between guard pages
+				if c, ok := o.raw.(concurrent); ok && o.mode == "ecb" {
+					if k := c.Concurrency() * 16; k > 0 && len(in) >= k {
+						s2 := guard.Alloc(k, atEnd)
+						copy(s2.B, in[:k])
+						d2 := s2
+						if buf[0] == 'd' {
+							d2 = guard.Alloc(k, atEnd)
+						}
+						if o.dir == "enc" {
+							c.EncryptBlocks(d2.B, s2.B)
+						} else {
+							c.DecryptBlocks(d2.B, s2.B)
+						}
+						mm := Diff(i, d2.B, exp[:k])
+						if mm != nil {
+							mm.Note = "EncryptBlocks/DecryptBlocks on one batch of Concurrency() blocks"
+						} else if !(s2.CanaryIntact() && d2.CanaryIntact()) {
+							mm = &Mismatch{Step: i, Kind: "overrun", Got: "bytes outside the batch were written by EncryptBlocks/DecryptBlocks", Exp: "untouched"}
+						}
+						s2.Free()
+						if d2 != s2 {
+							d2.Free()
+						}
+						if mm != nil {
+							return mm
+						}
+					}
 				}
 			default:
 				panic("harness: mode: unknown op " + st.Str("op"))
